@@ -120,4 +120,20 @@ theorem cutDot_notfound_rest (p : Bytes) : (cutDot p).2.2 = false → (cutDot p)
           rw [h] at ih
           simpa using ih
 
+theorem backToRuneStart_ok (s : Bytes) : ∀ cut : Nat, cut < s.length →
+    ∃ r, backToRuneStart s cut = .ok r ∧ r ≤ cut := by
+  intro cut
+  induction cut with
+  | zero => intro _; exact ⟨0, rfl, Nat.le_refl _⟩
+  | succ n ih =>
+    intro h
+    unfold backToRuneStart
+    obtain ⟨b, hb⟩ := goIndex_ok s ((n + 1 : Nat) : Int) (by omega) (by omega)
+    rw [hb]
+    simp only [bind, Except.bind]
+    split
+    · exact ⟨n + 1, rfl, Nat.le_refl _⟩
+    · obtain ⟨r, hr, hle⟩ := ih (by omega)
+      exact ⟨r, hr, by omega⟩
+
 end GB.C17
